@@ -370,13 +370,41 @@ def run_check(wt, c, jobs):
     return rc, keys[:4], round(time.time() - t0, 1)
 
 
+CHEAP = {"C03", "C05", "C07", "C09", "C10", "C13", "C15", "C16", "C17", "C18", "C20"}
+
+# the expensive checks tried for a survivor that the cheap ones do not report: by file and line range
+# (first matching range; the ranges follow the functions of the pinned source)
+HEAVY = {
+    "channel.py": [((178, 260), ["C19", "C11", "C04"]), ((261, 440), ["C12", "C04", "C11"]), ((441, 546), ["C11", "C19", "C04", "C12"]), ((0, 9999), ["C12", "C04", "C11", "C19"])],
+    "task.py": [((0, 141), ["C14"]), ((142, 9999), ["C08", "C04", "C11", "C01"])],
+    "parser.py": [((0, 9999), ["C06", "C01", "C02", "C19"])],
+    "receiver.py": [((0, 9999), ["C06", "C01", "C02"])],
+    "utilities.py": [((200, 240), ["C16"]), ((253, 9999), ["C06", "C01"]), ((0, 9999), [])],
+    "buffers.py": [((0, 9999), ["C12", "C04"])],
+    "wasyncore.py": [((0, 9999), ["C04"])],
+    "trigger.py": [((0, 9999), ["C04"])],
+}
+
+
+def checks_for(m, cheap):
+    base = FILES[m["file"]][1]
+    if cheap:
+        return [c for c in base if c in CHEAP]
+    out = [c for c in base if c in CHEAP]
+    for (lo, hi), lst in HEAVY.get(m["file"], []):
+        if lo <= m["line"] <= hi:
+            out += lst
+            break
+    return out
+
+
 def _check_one(arg):
-    m, jobs = arg
+    m, jobs, todo = arg
     wt = worker_wt()
     path, orig = install(wt, m)
     tried = {}
     try:
-        for c in FILES[m["file"]][1]:
+        for c in todo:
             rc, keys, wall = run_check(wt, c, jobs)
             tried[c] = {"exit": rc, "keys": keys, "wall_s": wall}
             if rc != 0:
@@ -386,21 +414,36 @@ def _check_one(arg):
         open(path, "w").write(orig)
 
 
-def cmd_check(jobs, only=None):
+def cmd_check(jobs, only=None, cheap=False, ids=None, redo=None, skip_triaged=True):
+    """cheap pass: only the checks that take seconds; full pass: the remaining ones for mutants still silent"""
     idx = {m["id"]: m for m in load("index.json", None)["mutants"]}
     tests = load("tests.json", {})
     res = load("checks.json", {})
-    surv = [idx[i] for i, r in tests.items() if r["rc"] == 0 and i in idx and i not in res and (only is None or idx[i]["file"] in only)]
-    print(len(surv), "survivors to check,", len(res), "done")
-    par = max(1, jobs // 4)
+    triage = load("triage.json", {})
+    work = []
+    for i, r in tests.items():
+        if r["rc"] != 0 or i not in idx or (only is not None and idx[i]["file"] not in only) or (ids is not None and i not in ids):
+            continue
+        done = res.get(i, {})
+        if any(x["exit"] == 1 for x in done.values()):
+            continue
+        if redo:
+            done = {c: x for c, x in done.items() if c not in redo}
+        todo = [c for c in checks_for(idx[i], cheap) if c not in done]
+        if skip_triaged and i in triage and not redo:
+            continue
+        if todo:
+            work.append((idx[i], 4, todo))
+    print(len(work), "survivors to check,", len(res), "have results")
+    par = max(1, jobs // 4) if not cheap else jobs // 2
     t0 = time.time()
     with mp.get_context("fork").Pool(par) as pool:
         try:
-            for k, (mid, r) in enumerate(pool.imap_unordered(_check_one, [(m, 4) for m in surv])):
-                res[mid] = r
+            for k, (mid, r) in enumerate(pool.imap_unordered(_check_one, work)):
+                res.setdefault(mid, {}).update(r)
                 json.dump(res, open(os.path.join(OUT, "checks.json"), "w"))
                 det = [c for c, x in r.items() if x["exit"] == 1]
-                print(f"{k + 1}/{len(surv)} {mid} {idx[mid]['desc']!r}: {'DETECTED ' + det[0] if det else 'silent'} ({time.time() - t0:.0f}s)", flush=True)
+                print(f"{k + 1}/{len(work)} {mid} {idx[mid]['desc']!r}: {'DETECTED ' + det[0] if det else 'silent'} ({time.time() - t0:.0f}s)", flush=True)
         finally:
             pool.map(drop_wt, range(par * 4))
     subprocess.call(["git", "-C", REPO, "worktree", "prune"])
@@ -441,6 +484,8 @@ def cmd_table():
             d["pending"] += 1
         elif any(x["exit"] == 1 for x in c.values()):
             d["det"] += 1
+        elif m["id"] not in triage and any(ck not in c for ck in checks_for(m, False)):
+            d["pending"] += 1
         else:
             d["silent"] += 1
     with open(os.path.join(OUT, "RESULTS.md"), "w") as f:
@@ -468,7 +513,23 @@ if __name__ == "__main__":
         only = None
         if "--files" in sys.argv:
             only = sys.argv[sys.argv.index("--files") + 1].split(",")
-        cmd_check(jobs, only)
+        ids = None
+        if "--ids" in sys.argv:
+            ids = set(sys.argv[sys.argv.index("--ids") + 1].split(","))
+        redo = None
+        if "--redo" in sys.argv:
+            redo = set(sys.argv[sys.argv.index("--redo") + 1].split(","))
+        cmd_check(jobs, only, cheap="--cheap" in sys.argv, ids=ids, redo=redo)
+    elif cmd == "try":
+        # run some checks on one mutant without recording anything
+        m = find(sys.argv[2])
+        wt = worker_wt()
+        path, orig = install(wt, m)
+        try:
+            for c in sys.argv[3].split(","):
+                print(c, run_check(wt, c, jobs))
+        finally:
+            drop_wt()
     elif cmd == "show":
         m = find(sys.argv[2])
         print(m["file"], m["line"], m["desc"])
